@@ -3,12 +3,14 @@
 //! oracles.  Every case is `decode(bytes)`; proptest, libFuzzer and the
 //! replay path all feed the same decoders.
 
+pub mod alloc;
 pub mod cur;
 pub mod report;
 pub mod queues;
 pub mod scenarios;
 pub mod shapes;
 pub mod timers;
+pub mod vm;
 
 pub use cur::Cur;
 pub use report::{CaseReport, Opts, Violation};
@@ -18,6 +20,7 @@ pub fn run_engine(engine: &str, bytes: &[u8], opts: &Opts) -> CaseReport {
     match engine {
         "timers" => timers::run_case(bytes, opts),
         "queues" => queues::run_case(bytes, opts),
+        "vm" => vm::exec::run_case(bytes, opts),
         "scenario" => {
             let name = String::from_utf8_lossy(bytes).to_string();
             let mut r = scenarios::run(&name, opts.trace)
